@@ -334,6 +334,7 @@ template <size_t OC>
 struct Search {
   Harness &H;
   std::string prop, tag;
+  bool touch = false;
   size_t n, nh;
   std::vector<Op<OC>> ops;
   std::mutex mu;
@@ -417,6 +418,24 @@ struct Search {
       if (!oc.threw())
         for (auto &ef : op.eff)
           if (ef.k == COPY && ef.dst != U && ef.src != C && ef.dst != C && op.name.find("t*=") == std::string::npos && after.s[ef.dst] != before.s[ef.src]) fail("copy-differs", "copy differs from its source");
+    }
+    if (touch) {
+      // C09 unit: USE every object after the transition through calls whose documented preconditions hold for any
+      // valid object (a moved-from or otherwise reachable object that is internally inconsistent then trips the sanitizers)
+      for (int rep = 0; rep < 1; rep++) {
+        attempt([&] { (void)p.u.front(); (void)p.u.back(); for (auto it = p.u.begin(); it != p.u.end(); ++it) (void)val(*it); });
+        auto use = [&](const auto &s) {
+          attempt([&] {
+            const auto &sup = s.getSupport();
+            if (!sup.empty()) { (void)s(sup.front()); (void)s(sup.back()); (void)s((sup.front() + sup.back()) / mki<S>(2)); }
+            (void)bspline::integration::LinearForm{}(s);
+            (void)s.isZero();
+            (void)(s + s);
+            (void)(s * s);
+          });
+        };
+        use(p.a); use(p.b); use(p.c);
+      }
     }
     if (oc.threw()) return "";
     pv.apply(op.eff);
@@ -554,8 +573,9 @@ int main(int argc, char **argv) {
   // quick: every history up to depth 5 on the small pool; thorough: the small pool to FIXPOINT and the
   // larger grids (G 4 points, H 3 points) up to depth 6
   long lv = H.args.count("levels") ? atol(H.args["levels"].c_str()) : (th ? 100000 : 5);
-  { Search<0> s(H, prop, 3, 2); s.run(nthreads, lv); }
-  { Search<2> s(H, prop, 3, 2); s.run(nthreads, lv); }
+  bool touch = H.args.count("touch") > 0;
+  { Search<0> s(H, prop, 3, 2); s.touch = touch; s.run(nthreads, lv); }
+  { Search<2> s(H, prop, 3, 2); s.touch = touch; s.run(nthreads, lv); }
   if (th) {
     long lv2 = H.args.count("levels2") ? atol(H.args["levels2"].c_str()) : 7;
     { Search<0> s(H, prop, 4, 3); s.run(nthreads, lv2); }
